@@ -29,9 +29,10 @@ type BoundedSpec struct {
 }
 
 // The injected test prints:
-//   BOUNDED evaluations=<n> distinct=<m> exhaustive=<bool> bound=<quoted text>
-//   BOUNDED-FAIL <one line description of the failing input and what was observed>
-//   BOUNDED-KNOWN <id> <one line>      (a failure matching a known finding id)
+//
+//	BOUNDED evaluations=<n> distinct=<m> exhaustive=<bool> bound=<quoted text>
+//	BOUNDED-FAIL <one line description of the failing input and what was observed>
+//	BOUNDED-KNOWN <id> <one line>      (a failure matching a known finding id)
 func (cc *CheckCtx) runBounded(bs BoundedSpec) {
 	t0 := time.Now()
 	name := cc.Prop + "/bounded." + bs.Name
